@@ -155,6 +155,22 @@ theorem request_slot_is_last (app : App) (st : AppState) (r : HReq) :
     simp only [hw]
     split <;> simp only [hw, Option.map_some]
 
+/-- `direct_raise_ignores_errors_map`: an exception the framework code raises itself while the
+handler reads the request (`int()` of a `Content-Length` that is not a number: a plain `ValueError`,
+not routed through `BaseRequest._raise`) consults no `errors_map` entry: the complete response is
+the same whatever the shared error objects are (and, by `response_history_independent_from`,
+whatever was served before). -/
+theorem direct_raise_ignores_errors_map (app : App) (st : AppState) (sh : List SharedErr) (r : HReq)
+    (h : r.direct = true) :
+    (serve app { st with shared := sh } r).2 = (serve app st r).2 := by
+  have hres : ∀ l, (resolve l r).1 = (resolve [] r).1 := by
+    intro l
+    unfold resolve
+    simp only [h, if_true]
+  unfold serve
+  simp only
+  rw [hres sh, hres st.shared]
+
 /-! ### NonVacuity: concrete histories -/
 section NonVacuity
 
@@ -216,6 +232,21 @@ def singletonReq (id : Nat) : HReq :=
 /-- hypotheses of `retained_bounded`, first alternative: singletons raised, after-hooks fine -/
 example : reachesExcept exApp = true ∧
     retained ([singletonReq 1, singletonReq 2, singletonReq 3].foldl (serve₁ exApp) AppState.init) = [3] := by
+  decide +kernel
+
+/-- a handler that sets a cookie and then reads the body of a request whose Content-Length is
+not a number (hypothesis of `direct_raise_ignores_errors_map`) -/
+def badLengthReq (id : Nat) : HReq :=
+  { req := mkReq id true (.found { effs := [.setCookie "own".toList "1".toList], res := .returns (.text "unreached".toList) }),
+    bodyErr := some "ValueError", direct := true }
+
+example : (badLengthReq 2).direct = true := rfl
+
+/-- after the cookie-setting request the 500 of the crashing read carries its own cookie only -/
+example :
+    let st := [cookieReq].foldl (serve₁ exApp) AppState.init
+    let o := (serve exApp st (badLengthReq 2)).2
+    o.line = "500 Internal Server Error".toList ∧ (o.hdrs.filter (·.1 == "Set-Cookie".toList)).length = 1 := by
   decide +kernel
 
 end NonVacuity
